@@ -20,11 +20,18 @@ import (
 )
 
 const (
-	repoDir    = "/repo"
-	verifDir   = "/verif"
-	harnessDir = "/verif/harness"
-	buildTag   = "verif_harness"
+	repoDir  = "/repo"
+	buildTag = "verif_harness"
 )
+
+// verifDir is /verif unless SYMGO_HOME points at a snapshot of it (background runs).
+var verifDir = func() string {
+	if h := os.Getenv("SYMGO_HOME"); h != "" {
+		return h
+	}
+	return "/verif"
+}()
+var harnessDir = verifDir + "/harness"
 
 type harness struct {
 	name    string
@@ -83,7 +90,9 @@ var interpretableInit = map[string]bool{"unicode": true, "unicode/utf8": true, "
 	"strings": true, "bytes": true, "bufio": true, "errors": true, "io": true, "sort": true, "slices": true, "cmp": true,
 	"math/bits": true, "math": true, "encoding/hex": true, "encoding/csv": true, "net/url": true, "path": true, "path/filepath": true,
 	"golang.org/x/net/html": true, "golang.org/x/net/html/atom": true, "html": true, "maps": true, "iter": true,
-	"encoding/binary": false}
+	"encoding/binary": false,
+	"golang.org/x/text/encoding/charmap": true, "golang.org/x/text/encoding": true, "golang.org/x/text/encoding/internal": true,
+	"golang.org/x/text/encoding/internal/identifier": true, "golang.org/x/text/transform": true}
 
 func (e *engine) initAllowed(p string) bool { return interpretableInit[p] || e.inModule(p) }
 
